@@ -283,6 +283,7 @@ func Explore(testName string, rep *core.Report, runs []Run) {
 			defer func() { <-sem; wg.Done() }()
 			argb, _ := json.Marshal(r.Arg)
 			ex := &core.ParallelExplorer{Pool: pool, Scenario: r.Scenario, Arg: argb, Budget: r.Budget, MaxExec: r.MaxExec}
+			ex.AfterViolation = func() bool { return rep.NumViolations() > 0 }
 			if r.SelectLast {
 				ex.Pool = poolLast
 			}
@@ -325,6 +326,9 @@ func Explore(testName string, rep *core.Report, runs []Run) {
 				}
 			}
 			ex.Run()
+			if ex.Diverged > 0 {
+				rep.Cap(fmt.Sprintf("%d replays of scenario %s arg %s diverged after a violation had been reported (their subtrees were abandoned)", ex.Diverged, r.Scenario, argb))
+			}
 			if ex.Capped {
 				rep.Cap(fmt.Sprintf("execution cap %d reached in scenario %s arg %s", r.MaxExec, r.Scenario, argb))
 			}
